@@ -93,6 +93,7 @@ struct Ctx {
 	stats: BTreeMap<String, u64>,
 	fails: u64,
 	pool: Vec<BlockHeader>,
+	sized_pool: BTreeMap<u8, Vec<BlockHeader>>,
 }
 impl Ctx {
 	fn stat(&mut self, k: &str) {
@@ -127,6 +128,12 @@ fn gen_addr(rng: &mut Rng) -> PeerAddr {
 /// a header that passes `UntrustedBlockHeader::read` on AutomatedTesting (which verifies the proof of
 /// work: a real cuckatoo-10 solution is mined)
 fn gen_header(rng: &mut Rng) -> BlockHeader {
+	gen_header_bits(rng, global::min_edge_bits())
+}
+
+/// … mined on the cuckatoo graph of `bits` edge bits: the packed proof takes `8 * bits / 8` bytes, so
+/// headers of different graph sizes have different serialized lengths (257 + bits - 10 bytes)
+fn gen_header_bits(rng: &mut Rng, bits: u8) -> BlockHeader {
 	let height = 1000 + rng.below(1 << 30);
 	let mut h = BlockHeader {
 		version: HeaderVersion(5),
@@ -147,8 +154,28 @@ fn gen_header(rng: &mut Rng) -> BlockHeader {
 			proof: Proof { edge_bits: 10, nonces: vec![0; 8] },
 		},
 	};
-	grin_core::pow::pow_size(&mut h, Difficulty::from_num(1), global::proofsize(), global::min_edge_bits()).expect("mine header");
+	grin_core::pow::pow_size(&mut h, Difficulty::from_num(1), global::proofsize(), bits).expect("mine header");
+	// the solver labels its proofs with the minimum edge bits: state the graph size that was mined
+	h.pow.proof.edge_bits = bits;
+	grin_core::pow::verify_size(&h).expect("mined header verifies");
 	h
+}
+
+/// headers with the given edge bits, in that order (a few are mined per graph size and reused)
+fn sized_headers(cx: &mut Ctx, bits: &[u8]) -> Vec<BlockHeader> {
+	const PER_SIZE: usize = 5;
+	let mut out = vec![];
+	for (i, &b) in bits.iter().enumerate() {
+		if !cx.sized_pool.contains_key(&b) {
+			let t0 = Instant::now();
+			let v: Vec<BlockHeader> = (0..PER_SIZE).map(|_| gen_header_bits(&mut cx.rng, b)).collect();
+			cx.out.raw(&format!("#STAT mined {} headers at edge bits {} ({} bytes each) in {} ms", PER_SIZE, b, sv(&v[0], 1).len(), t0.elapsed().as_millis()));
+			cx.sized_pool.insert(b, v);
+		}
+		let pool = &cx.sized_pool[&b];
+		out.push(pool[(i * 7 + cx.rng.below(PER_SIZE as u64) as usize) % PER_SIZE].clone());
+	}
+	out
 }
 
 /// mined headers are reused across messages (mining is the expensive part)
@@ -470,54 +497,124 @@ fn faithful(cx: &mut Ctx, work: &std::path::Path) {
 		for n in &names {
 			cx.stat(&format!("sent {}", n));
 		}
-		cx.stat(&format!("stream length bucket 2^{}", 64 - (stream.len() as u64).leading_zeros()));
-		let mut plans: Vec<Vec<usize>> = vec![vec![]];
-		if stream.len() <= if cx.thorough { 1500 } else { 260 } {
-			// EVERY single split point
-			for p in 1..stream.len() {
-				plans.push(vec![p]);
-			}
-			cx.stat("streams cut at every single split point");
-		} else {
-			// all split points inside the first frame header, then a sample
-			for p in 1..12.min(stream.len()) {
-				plans.push(vec![p]);
-			}
-			for _ in 0..(if cx.thorough { 40 } else { 8 }) {
-				plans.push(vec![1 + cx.rng.below(stream.len() as u64 - 1) as usize]);
-			}
+		deliver_plans(cx, ver, &stream, &exp, &names, &[]);
+	}
+}
+
+/// deliver one stream to the real Codec unfragmented, cut at every single split point (short streams) or
+/// inside the first frame header plus a sample (long ones), at the `extra` points, with random multi-splits
+/// and byte by byte (very short ones); oracle: exactly `exp` is read, then end of stream
+fn deliver_plans(cx: &mut Ctx, ver: u32, stream: &[u8], exp: &[Exp], names: &[String], extra: &[usize]) {
+	deliver_plans_at(cx, ver, stream, exp, names, extra, cx.thorough)
+}
+
+fn deliver_plans_at(cx: &mut Ctx, ver: u32, stream: &[u8], exp: &[Exp], names: &[String], extra: &[usize], dense: bool) {
+	cx.stat(&format!("stream length bucket 2^{}", 64 - (stream.len() as u64).leading_zeros()));
+	let mut plans: Vec<Vec<usize>> = vec![vec![]];
+	for &p in extra {
+		if p > 0 && p < stream.len() {
+			plans.push(vec![p]);
 		}
-		// random multi-splits (incl. byte-by-byte for short streams)
-		for _ in 0..(if cx.thorough { 12 } else { 4 }) {
-			let k = 2 + cx.rng.below(12) as usize;
-			let mut ps: Vec<usize> = (0..k).map(|_| 1 + cx.rng.below(stream.len() as u64 - 1) as usize).collect();
-			ps.sort_unstable();
-			ps.dedup();
-			plans.push(ps);
+	}
+	if stream.len() <= if dense { 1500 } else { 260 } {
+		// EVERY single split point
+		for p in 1..stream.len() {
+			plans.push(vec![p]);
 		}
-		if stream.len() <= 120 {
-			plans.push((1..stream.len()).collect());
-			cx.stat("streams delivered byte by byte");
+		cx.stat("streams cut at every single split point");
+	} else {
+		// all split points inside the first frame header, then a sample
+		for p in 1..12.min(stream.len()) {
+			plans.push(vec![p]);
 		}
-		for (pi, ps) in plans.iter().enumerate() {
-			let frags = split_at_points(&stream, ps);
-			let gaps: Vec<u64> = (0..frags.len())
-				.map(|_| if ps.len() <= 1 { 300 } else { cx.rng.below(2001) })
+		for _ in 0..(if dense { 40 } else { 8 }) {
+			plans.push(vec![1 + cx.rng.below(stream.len() as u64 - 1) as usize]);
+		}
+	}
+	// random multi-splits (incl. byte-by-byte for short streams)
+	for _ in 0..(if dense { 12 } else { 4 }) {
+		let k = 2 + cx.rng.below(12) as usize;
+		let mut ps: Vec<usize> = (0..k).map(|_| 1 + cx.rng.below(stream.len() as u64 - 1) as usize).collect();
+		ps.sort_unstable();
+		ps.dedup();
+		plans.push(ps);
+	}
+	if stream.len() <= 120 {
+		plans.push((1..stream.len()).collect());
+		cx.stat("streams delivered byte by byte");
+	}
+	for (pi, ps) in plans.iter().enumerate() {
+		let frags = split_at_points(&stream, ps);
+		let gaps: Vec<u64> = (0..frags.len())
+			.map(|_| if ps.len() <= 1 { 300 } else { cx.rng.below(2001) })
+			.collect();
+		let r = run_codec(ver, &frags, &gaps);
+		cx.stat(&format!("fragments per stream: {}", if frags.len() > 8 { ">8".to_string() } else { frags.len().to_string() }));
+		if r.got != exp || r.end != "Connection" {
+			cx.fails += 1;
+			cx.out.raw(&format!(
+				"#ORACLE-FAIL C19 sequence read differs from sequence written: version {} messages {:?} fragments {} read {:?} end {} expected {:?}",
+				ver, names, hex_list(&frags).chars().take(600).collect::<String>(), r.got.iter().map(|e| format!("{:?}", e).chars().take(60).collect::<String>()).collect::<Vec<_>>(), r.end,
+				exp.iter().map(|e| format!("{:?}", e).chars().take(60).collect::<String>()).collect::<Vec<_>>()
+			));
+		}
+		// the model line: all plans for short streams, a sample for long ones
+		if stream.len() <= 3000 || pi < 3 {
+			emit_run(cx, ver, &frags, &r, false);
+		}
+	}
+}
+
+/// `Headers` lists whose headers have DIFFERENT serialized sizes (the size depends on the edge bits of the
+/// proof; every header is really mined on its graph size), crossing the batches of 32, followed by a Ping
+fn headers_mixed(cx: &mut Ctx) {
+	let sizes: Vec<u8> = if cx.thorough { vec![10, 11, 12, 13, 14, 16, 17, 18] } else { vec![10, 11, 12, 13, 14, 16] };
+	let big = *sizes.last().unwrap();
+	let lens: Vec<usize> = if cx.thorough { (1..=75).collect() } else { vec![1, 2, 3, 31, 32, 33, 34, 63, 64, 65, 75] };
+	for (li, &n) in lens.iter().enumerate() {
+		let patterns: Vec<usize> = if cx.thorough { vec![0, 1, 2, 3] } else { vec![li % 4, (li + 1) % 4] };
+		for pat in patterns {
+			let bits: Vec<u8> = (0..n)
+				.map(|i| match pat {
+					0 => if i < (n + 1) / 2 { big } else { 10 },          // big then small
+					1 => if i < n / 2 { 10 } else { big },                // small then big
+					2 => *cx.rng.pick(&sizes),                            // mixed
+					_ => if i == (li * 5) % n { big } else { 10 },        // one odd one out
+				})
 				.collect();
-			let r = run_codec(ver, &frags, &gaps);
-			cx.stat(&format!("fragments per stream: {}", if frags.len() > 8 { ">8".to_string() } else { frags.len().to_string() }));
-			if r.got != exp || r.end != "Connection" {
-				cx.fails += 1;
-				cx.out.raw(&format!(
-					"#ORACLE-FAIL C19 sequence read differs from sequence written: version {} messages {:?} fragments {} read {:?} end {} expected {:?}",
-					ver, names, hex_list(&frags).chars().take(600).collect::<String>(), r.got.iter().map(|e| format!("{:?}", e).chars().take(60).collect::<String>()).collect::<Vec<_>>(), r.end,
-					exp.iter().map(|e| format!("{:?}", e).chars().take(60).collect::<String>()).collect::<Vec<_>>()
-				));
+			let pname = ["big-then-small", "small-then-big", "mixed", "one-odd"][pat];
+			let ver = VERSIONS[(li + pat) % 4];
+			let hs = sized_headers(cx, &bits);
+			let item_lens: Vec<usize> = hs.iter().map(|h| sv(h, ver).len()).collect();
+			let mut exp = vec![];
+			let mut i = 0;
+			while i < n {
+				let j = (i + 32).min(n);
+				let canon: Vec<u8> = hs[i..j].iter().flat_map(|h| sv(h, ver)).collect();
+				exp.push(Exp::Headers(j - i, (n - j) as u64, hex(&canon)));
+				i = j;
 			}
-			// the model line: all plans for short streams, a sample for long ones
-			if stream.len() <= 3000 || pi < 3 {
-				emit_run(cx, ver, &frags, &r, false);
+			let mut stream = wire(&Msg::new(Type::Headers, Headers { headers: hs }, ProtocolVersion(ver)).unwrap());
+			let ping = Ping { total_difficulty: Difficulty::from_num(cx.rng.next()), height: cx.rng.next() };
+			exp.push(Exp::Body(Type::Ping as u8, hex(&sv(&ping, ver))));
+			stream.extend_from_slice(&wire(&Msg::new(Type::Ping, ping, ProtocolVersion(ver)).unwrap()));
+			// cut at the item boundaries where the size changes, around the batch boundaries and at the end of the list
+			let mut extra = vec![];
+			let mut off = 13;
+			for (k, l) in item_lens.iter().enumerate() {
+				off += l;
+				if k + 1 == n || k + 1 == 32 || k + 1 == 64 || (k + 1 < n && item_lens[k + 1] != *l) {
+					extra.push(off);
+					if extra.len() > 10 {
+						break;
+					}
+				}
 			}
+			let distinct: std::collections::BTreeSet<usize> = item_lens.iter().cloned().collect();
+			cx.stat(&format!("mixed-size Headers lists: pattern {}", pname));
+			cx.stat(&format!("mixed-size Headers lists: {} distinct header sizes", distinct.len()));
+			let names = vec![format!("Headers({}, {}, sizes {:?})", n, pname, distinct), "Ping".to_string()];
+			deliver_plans_at(cx, ver, &stream, &exp, &names, &extra, false);
 		}
 	}
 }
@@ -828,6 +925,93 @@ fn handshakes(cx: &mut Ctx) {
 			Err(e) => format!("err {}", e),
 		};
 		cx.out.line(&format!("codec hs accept {} {}", hex(g1.as_bytes()), hex(&bytes)), &rs);
+	}
+}
+
+// ---------------------------------------------------------------------------------------------
+// user agents made of multi-byte UTF-8 characters through the real Handshake::accept / initiate
+
+/// the first `len` bytes of: `prefix` ASCII bytes, then the `k`-byte character repeated — so that, over
+/// all (prefix, len), every byte offset of the string is inside a multi-byte character in some input
+/// and the string ends inside a character whenever `(len - prefix) % k != 0`
+fn utf8_agent_bytes(k: usize, prefix: usize, len: usize) -> Vec<u8> {
+	let ch: &str = ["a", "é", "€", "😀"][k - 1];
+	let mut b: Vec<u8> = vec![b'x'; prefix];
+	while b.len() < len + 4 {
+		b.extend_from_slice(ch.as_bytes());
+	}
+	b.truncate(len);
+	b
+}
+
+fn utf8_user_agents(cx: &mut Ctx) {
+	let g = Hash::from_vec(&[7u8; 32]);
+	let self_addr = PeerAddr("127.0.0.1:3414".parse().unwrap());
+	let mut lens: Vec<usize> = (0..=if cx.thorough { 70 } else { 24 }).collect();
+	lens.extend_from_slice(&[63, 64, 65, 127, 128, 129, 255, 256, 257, 300, 400, 420]);
+	lens.sort_unstable();
+	lens.dedup();
+	let base_hand = sv(
+		&Hand {
+			version: ProtocolVersion(3),
+			capabilities: Capabilities::default(),
+			nonce: 4711,
+			genesis: g,
+			total_difficulty: Difficulty::from_num(1),
+			sender_addr: self_addr,
+			receiver_addr: self_addr,
+			user_agent: String::new(),
+		},
+		1,
+	);
+	let base_shake = sv(&Shake { version: ProtocolVersion(3), capabilities: Capabilities::default(), genesis: g, total_difficulty: Difficulty::from_num(1), user_agent: String::new() }, 1);
+	// the empty user agent is the 8 zero bytes of its length prefix, in front of the 32-byte genesis hash
+	let splice = |base: &[u8], ua: &[u8]| -> Vec<u8> {
+		let at = base.len() - 32 - 8;
+		let mut b = base[..at].to_vec();
+		b.extend_from_slice(&(ua.len() as u64).to_be_bytes());
+		b.extend_from_slice(ua);
+		b.extend_from_slice(&base[base.len() - 32..]);
+		b
+	};
+	for &len in &lens {
+		for k in 1..=4usize {
+			for prefix in 0..4usize {
+				if prefix > len || (!cx.thorough && len > 24 && prefix != len % 4) {
+					continue;
+				}
+				let ua = utf8_agent_bytes(k, prefix, len);
+				let valid = std::str::from_utf8(&ua).is_ok();
+				for accept in [true, false] {
+					let body = splice(if accept { &base_hand } else { &base_shake }, &ua);
+					let t = if accept { Type::Hand } else { Type::Shake };
+					if body.len() as u64 > if accept { 512 } else { 352 } {
+						continue;
+					}
+					let mut bytes = sv(&MsgHeader::new(t, body.len() as u64), 1);
+					bytes.extend_from_slice(&body);
+					let b2 = bytes.clone();
+					let r = catch(std::panic::AssertUnwindSafe(move || if accept { scripted_accept(g, &b2) } else { scripted_initiate(g, &b2) }));
+					cx.stat(&format!("utf8 user agents ({}-byte characters) through Handshake::{}", k, if accept { "accept" } else { "initiate" }));
+					let rs = match &r {
+						Ok(Ok(v)) => format!("ok {}", v),
+						Ok(Err(e)) => format!("err {}", e),
+						Err(_) => "panic".to_string(),
+					};
+					let want = if valid { "ok 3".to_string() } else { "err Ser:CorruptedData".to_string() };
+					if r.is_err() {
+						cx.fails += 1;
+						let txt = format!("Handshake::{} panicked on a user agent of {} bytes ({} ASCII bytes, then {}-byte characters, valid UTF-8: {}): stream {}", if accept { "accept" } else { "initiate" }, len, prefix, k, valid, hex(&bytes));
+						cx.out.raw(&format!("#ORACLE-FAIL C11 utf8-user-agent-panics-handshake {}", txt));
+						cx.out.raw(&format!("#ORACLE-FAIL C19 utf8-user-agent-panics-handshake {}", txt));
+					} else if rs != want {
+						cx.fails += 1;
+						cx.out.raw(&format!("#ORACLE-FAIL C19 handshake with a user agent of {} bytes ({} ASCII, {}-byte characters, valid UTF-8: {}) gave {} instead of {}: stream {}", len, prefix, k, valid, rs, want, hex(&bytes)));
+					}
+					cx.out.line(&format!("codec hs {} {} {}", if accept { "accept" } else { "initiate" }, hex(g.as_bytes()), hex(&bytes)), &rs);
+				}
+			}
+		}
 	}
 }
 
@@ -1883,8 +2067,9 @@ impl ChainAdapter for RecAdapter {
 		self.push("other:header".to_string());
 		Ok(true)
 	}
-	fn headers_received(&self, _bh: &[BlockHeader], _p: &PeerInfo) -> Result<bool, grin_chain::Error> {
-		self.push("other:headers".to_string());
+	fn headers_received(&self, bh: &[BlockHeader], _p: &PeerInfo) -> Result<bool, grin_chain::Error> {
+		let canon: Vec<u8> = bh.iter().flat_map(|h| sv(h, self.ver)).collect();
+		self.push(format!("headers:{}:{}", bh.len(), hex(&canon)));
 		Ok(true)
 	}
 	fn locate_headers(&self, _l: &[Hash]) -> Result<Vec<BlockHeader>, grin_chain::Error> {
@@ -2224,6 +2409,216 @@ fn conn_level(cx: &mut Ctx, work: &std::path::Path) {
 }
 
 // ---------------------------------------------------------------------------------------------
+// bytes that arrive TOGETHER WITH the handshake message (same write / same TCP segment)
+
+/// `accept`: a raw socket writes `sched` = its Hand followed by further frames to a real `Peer::accept`;
+/// `connect`: a real `Peer::connect` dials a raw listener, which reads the Hand and then writes `sched` =
+/// its Shake followed by further frames
+fn run_hs_then(accept: bool, ver: u32, sched: &[(u64, Vec<u8>)], want_pongs: usize) -> Result<PeerRes, String> {
+	let g = Hash::from_vec(&[7u8; 32]);
+	let listener = TcpListener::bind("127.0.0.1:0").unwrap();
+	let addr = listener.local_addr().unwrap();
+	let adapter = Arc::new(RecAdapter { ver: ver.min(1000), log: Mutex::new(vec![]) });
+	let ad2 = adapter.clone();
+	let self_addr = PeerAddr("127.0.0.1:3414".parse().unwrap());
+	if accept {
+		let mut client = TcpStream::connect(addr).unwrap();
+		client.set_nodelay(true).unwrap();
+		let (server, _) = listener.accept().unwrap();
+		let t = std::thread::spawn(move || {
+			global::set_local_chain_type(ChainTypes::AutomatedTesting);
+			let hs = Handshake::new(g, P2PConfig::default());
+			Peer::accept(server, Capabilities::default(), Difficulty::from_num(9), &hs, ad2).map_err(|e| err_name(&e))
+		});
+		let (pongs, closed) = drive_client(&mut client, sched, want_pongs);
+		let peer = t.join().map_err(|_| "accept thread panicked".to_string())??;
+		peer.stop();
+		let _ = client.shutdown(Shutdown::Both);
+		let events = adapter.log.lock().unwrap().clone();
+		Ok(PeerRes { events, pongs, closed, version: peer.info.version.value() })
+	} else {
+		let t = std::thread::spawn(move || {
+			global::set_local_chain_type(ChainTypes::AutomatedTesting);
+			let hs = Handshake::new(g, P2PConfig::default());
+			let conn = TcpStream::connect(addr).map_err(|e| e.to_string())?;
+			Peer::connect(conn, Capabilities::default(), Difficulty::from_num(9), self_addr, &hs, ad2).map_err(|e| err_name(&e))
+		});
+		let (mut remote, _) = listener.accept().unwrap();
+		remote.set_nodelay(true).unwrap();
+		// the node's Hand
+		let _ = remote.set_read_timeout(Some(Duration::from_secs(5)));
+		let mut head = [0u8; 11];
+		remote.read_exact(&mut head).map_err(|e| format!("no Hand: {}", e))?;
+		let mut l = [0u8; 8];
+		l.copy_from_slice(&head[3..11]);
+		let mut body = vec![0u8; u64::from_be_bytes(l) as usize];
+		remote.read_exact(&mut body).map_err(|e| format!("short Hand: {}", e))?;
+		let (pongs, closed) = drive_client(&mut remote, sched, want_pongs);
+		let peer = t.join().map_err(|_| "connect thread panicked".to_string())??;
+		peer.stop();
+		let _ = remote.shutdown(Shutdown::Both);
+		let events = adapter.log.lock().unwrap().clone();
+		Ok(PeerRes { events, pongs, closed, version: peer.info.version.value() })
+	}
+}
+
+fn hs_then(cx: &mut Ctx) {
+	let g = Hash::from_vec(&[7u8; 32]);
+	let self_addr = PeerAddr("127.0.0.1:3414".parse().unwrap());
+	struct Job {
+		accept: bool,
+		ver: u32,
+		frags: Vec<Vec<u8>>,
+		want: Vec<String>,
+		pongs: usize,
+		what: String,
+	}
+	let mut jobs: Vec<Job> = vec![];
+	let versions: Vec<u32> = if cx.thorough { VERSIONS.to_vec() } else { vec![1000, 2] };
+	for (vi, &ver) in versions.iter().enumerate() {
+		for accept in [true, false] {
+			// the handshake message of the remote side
+			let hs_msg = if accept {
+				let hand = Hand {
+					version: ProtocolVersion(ver),
+					capabilities: Capabilities::default(),
+					nonce: cx.rng.next(),
+					genesis: g,
+					total_difficulty: Difficulty::from_num(1),
+					sender_addr: self_addr,
+					receiver_addr: self_addr,
+					user_agent: "verif/hs-then é".to_string(),
+				};
+				wire(&Msg::new(Type::Hand, hand, ProtocolVersion(ver)).unwrap())
+			} else {
+				let shake = Shake {
+					version: ProtocolVersion(ver),
+					capabilities: Capabilities::default(),
+					genesis: g,
+					total_difficulty: Difficulty::from_num(1),
+					user_agent: "verif/hs-then é".to_string(),
+				};
+				wire(&Msg::new(Type::Shake, shake, ProtocolVersion(ver)).unwrap())
+			};
+			// what follows it in the same write(s): variants with 1, 2 and 5 messages
+			for variant in 0..3usize {
+				let mut stream = hs_msg.clone();
+				let mut want: Vec<String> = vec![];
+				let mut pongs = 0;
+				let h1 = 70_000 + cx.rng.below(1000);
+				stream.extend_from_slice(&ping_frame(ver, h1));
+				want.push(format!("ping:{}", h1));
+				pongs += 1;
+				if variant >= 1 {
+					stream.extend_from_slice(&getpeers_frame(ver, 0x0f));
+					want.push("getpeeraddrs:15".to_string());
+				}
+				if variant >= 2 {
+					// a Headers message of 35 headers of different sizes, then another Ping
+					let bits: Vec<u8> = (0..35).map(|i| [10u8, 14, 12, 16, 11][(i + vi) % 5]).collect();
+					let hs = sized_headers(cx, &bits);
+					let c1: Vec<u8> = hs[..32].iter().flat_map(|h| sv(h, ver)).collect();
+					let c2: Vec<u8> = hs[32..].iter().flat_map(|h| sv(h, ver)).collect();
+					want.push(format!("headers:32:{}", hex(&c1)));
+					want.push(format!("headers:3:{}", hex(&c2)));
+					stream.extend_from_slice(&wire(&Msg::new(Type::Headers, Headers { headers: hs }, ProtocolVersion(ver)).unwrap()));
+					let h2 = 80_000 + cx.rng.below(1000);
+					stream.extend_from_slice(&ping_frame(ver, h2));
+					want.push(format!("ping:{}", h2));
+					pongs += 1;
+				}
+				let e = hs_msg.len();
+				// one write; every single split point around the end of the handshake message; a few multi-splits
+				let mut plans: Vec<Vec<usize>> = vec![vec![]];
+				let lo = if cx.thorough || variant == 0 { e.saturating_sub(12) } else { e.saturating_sub(2) };
+				let hi = if cx.thorough || variant == 0 { e + 28 } else { e + 2 };
+				for p in lo..=hi.min(stream.len() - 1) {
+					if p > 0 {
+						plans.push(vec![p]);
+					}
+				}
+				plans.push(vec![e - 1, e, e + 1]);
+				plans.push(vec![1, e + 5, e + 11, e + 12]);
+				if cx.thorough {
+					for _ in 0..4 {
+						let mut ps: Vec<usize> = (0..4).map(|_| 1 + cx.rng.below(stream.len() as u64 - 1) as usize).collect();
+						ps.sort_unstable();
+						ps.dedup();
+						plans.push(ps);
+					}
+				}
+				for ps in plans {
+					jobs.push(Job {
+						accept,
+						ver,
+						frags: split_at_points(&stream, &ps),
+						want: want.clone(),
+						pongs,
+						what: format!("{} + {} message(s) behind it, cuts {:?} (handshake message ends at {})", if accept { "Hand to Peer::accept" } else { "Shake to Peer::connect" }, want.len(), ps, e),
+					});
+				}
+			}
+		}
+	}
+	let now = Utc::now().timestamp();
+	let t_all = Instant::now();
+	let batch = 24;
+	let mut results: Vec<Option<Result<PeerRes, String>>> = (0..jobs.len()).map(|_| None).collect();
+	let mut start = 0;
+	while start < jobs.len() {
+		let end = (start + batch).min(jobs.len());
+		let handles: Vec<_> = (start..end)
+			.map(|i| {
+				let sched: Vec<(u64, Vec<u8>)> = jobs[i].frags.iter().map(|f| (2u64, f.clone())).collect();
+				let (accept, ver, pongs) = (jobs[i].accept, jobs[i].ver, jobs[i].pongs);
+				std::thread::spawn(move || {
+					global::set_local_chain_type(ChainTypes::AutomatedTesting);
+					run_hs_then(accept, ver, &sched, pongs)
+				})
+			})
+			.collect();
+		for (j, h) in handles.into_iter().enumerate() {
+			results[start + j] = h.join().ok();
+		}
+		start = end;
+	}
+	for (i, job) in jobs.iter().enumerate() {
+		let dir = if job.accept { "accept" } else { "connect" };
+		cx.stat(&format!("hs-then: deliveries to Peer::{} with {} fragment(s)", dir, if job.frags.len() > 3 { ">3".to_string() } else { job.frags.len().to_string() }));
+		let rs = match &results[i] {
+			Some(Ok(r)) => {
+				let mut evs = r.events.clone();
+				evs.push(format!("pongs:{}", r.pongs));
+				evs.push(format!("closed:{}", if r.closed { 1 } else { 0 }));
+				if r.events != job.want || r.pongs != job.pongs || r.closed || r.version != job.ver.min(1000) {
+					cx.fails += 1;
+					cx.out.raw(&format!(
+						"#ORACLE-FAIL C19 messages written together with the handshake message were lost / not delivered exactly once in order: {} (protocol version {}): node saw {:?} expected {:?}; Pongs {} of {}; connection closed {}; negotiated version {}; fragments {}",
+						job.what, job.ver,
+						r.events.iter().map(|e| e.chars().take(40).collect::<String>()).collect::<Vec<_>>(),
+						job.want.iter().map(|e| e.chars().take(40).collect::<String>()).collect::<Vec<_>>(),
+						r.pongs, job.pongs, r.closed, r.version, hex_list(&job.frags).chars().take(700).collect::<String>()
+					));
+				}
+				format!("[{}]", evs.join(";"))
+			}
+			Some(Err(e)) => {
+				cx.fails += 1;
+				cx.out.raw(&format!("#ORACLE-FAIL C19 handshake failed although the handshake message is well-formed ({}): {}; fragments {}", job.what, e, hex_list(&job.frags).chars().take(400).collect::<String>()));
+				"[handshake-failed]".to_string()
+			}
+			None => {
+				cx.fails += 1;
+				cx.out.raw(&format!("#ORACLE-FAIL C19 hs-then delivery panicked in the harness: {}", job.what));
+				"[panic]".to_string()
+			}
+		};
+		cx.out.line(&format!("codec hsthen {} {} {} {}", dir, job.ver.min(1000), now, hex_list(&job.frags)), &rs);
+	}
+	cx.out.raw(&format!("#STAT hs-then: {} deliveries in {} ms ({} at a time)", jobs.len(), t_all.elapsed().as_millis(), batch));
+}
+
+// ---------------------------------------------------------------------------------------------
 // self-connection detection over ONE long-lived Handshake
 
 /// wait until the `Hand` frame is readable on `s` (without consuming it) and return its nonce
@@ -2408,10 +2803,11 @@ fn main() {
 	global::init_global_chain_type(ChainTypes::AutomatedTesting);
 	let work = std::path::PathBuf::from(std::env::var("VERIF_WORK").expect("VERIF_WORK"));
 	std::fs::create_dir_all(&work).unwrap();
-	let mut cx = Ctx { out: Out::stdout(), rng: Rng::new(seed_from_env()), thorough: tier_thorough(), stats: BTreeMap::new(), fails: 0, pool: vec![] };
+	let mut cx = Ctx { out: Out::stdout(), rng: Rng::new(seed_from_env()), thorough: tier_thorough(), stats: BTreeMap::new(), fails: 0, pool: vec![], sized_pool: BTreeMap::new() };
 	let mode = std::env::args().nth(1).unwrap_or_else(|| "all".to_string());
 	if mode == "all" || mode == "faithful" {
 		faithful(&mut cx, &work);
+		headers_mixed(&mut cx);
 	}
 	if mode == "all" || mode == "refuse" {
 		refusals(&mut cx);
@@ -2421,9 +2817,18 @@ fn main() {
 	if mode == "all" || mode == "handshake" {
 		handshakes(&mut cx);
 		addr_messages(&mut cx);
+		utf8_user_agents(&mut cx);
+	}
+	if mode == "minetest" {
+		for b in [10u8, 11, 12, 13, 14, 15, 16, 17, 18] {
+			let _ = sized_headers(&mut cx, &[b]);
+		}
 	}
 	if mode == "all" || mode == "conn" {
 		conn_level(&mut cx, &work);
+	}
+	if mode == "all" || mode == "hsthen" {
+		hs_then(&mut cx);
 	}
 	if mode == "all" || mode == "timed" {
 		timed(&mut cx, &work);
